@@ -25,6 +25,7 @@ SAN_ENV = {
     "ASAN_OPTIONS": "abort_on_error=1:detect_leaks=0:allocator_may_return_null=1:redzone=64:max_malloc_fill_size=0:handle_abort=1:quarantine_size_mb=8:detect_stack_use_after_return=0",
     "UBSAN_OPTIONS": "print_stacktrace=1:halt_on_error=1",
     "TSAN_OPTIONS": "halt_on_error=0:second_deadlock_stack=1:history_size=4",
+    "MSAN_OPTIONS": "abort_on_error=1:allocator_may_return_null=1:poison_in_dtor=0",
     "MALLOC_CHECK_": "3",
 }
 
